@@ -16,6 +16,7 @@ def run(mods, fns, repo="/repo", verbose=True):
         mod = importlib.import_module("contracts." + m); mod.declare(S)
         if hasattr(mod, "declare2"): mod.declare2(S)
         if hasattr(mod, "declare3"): mod.declare3(S)
+        if hasattr(mod, "declare4"): mod.declare4(S)
     E = Engine(prog, S)
     for q in fns:
         qq = [k for k in S.fns if k.endswith("." + q) or k.endswith(":" + q)]
